@@ -15,7 +15,8 @@ Local Open Scope Z_scope.
 (** ---------------------------------------------------------------- messages *)
 Inductive leaf :=
 | EthTx (from : addr) (nonce : nat) (gas price value : Z)
-    (* MsgEthereumTx whose signature recovers to [from]; plain transfer of [value] (unibi); gas price in unibi/gas *)
+    (* MsgEthereumTx whose signature recovers to [from]; plain transfer of [value] (unibi); [price] = EFFECTIVE gas
+       price in WEI per gas (see [eff_legacy] / [eff_dynamic]); 10^12 wei = 1 unibi *)
 | Send (from : addr)                           (* bank MsgSend of 1 unibi to a sink account *)
 | Grant (granter grantee : addr) (k : mkind)   (* authz MsgGrant with a GenericAuthorization *)
 | EthTxAs (claimed : addr) (from : addr) (nonce : nat) (gas price value : Z).
@@ -48,6 +49,19 @@ Definition leaf_basic (l : leaf) : bool :=
 
 (** intrinsic gas of a plain transfer = all the gas it uses *)
 Definition GAS_TRANSFER : Z := 21000.
+
+(** bank amounts are unibi, Ethereum prices are wei: evm.WeiToNative truncates wei / 10^12 *)
+Definition WEI : Z := 1000000000000.
+Definition BASE_FEE_WEI : Z := WEI.     (* evm.BASE_FEE_WEI: 1 unibi per gas *)
+(** TxData.EffectiveGasPriceWeiPerGas: legacy / access-list txs pay max(gasPrice, baseFee); dynamic-fee txs pay
+    max(baseFee, min(baseFee + tipCap, feeCap)) *)
+Definition eff_legacy (gas_price : Z) : Z := Z.max gas_price BASE_FEE_WEI.
+Definition eff_dynamic (fee_cap tip_cap : Z) : Z := Z.max BASE_FEE_WEI (Z.min (BASE_FEE_WEI + tip_cap) fee_cap).
+(** what keeper.VerifyFee makes the ante handler deduct for gas limit [g] at effective price [p]:
+    WeiToNative(p × g) — or, if the code converted the price first, WeiToNative(p) × g *)
+Definition prepay (exact : bool) (g p : Z) : Z := if exact then (g * p) / WEI else (p / WEI) * g.
+(** what Keeper.RefundGas pays back: WeiToNative(leftover gas × p) *)
+Definition refund_of (g p : Z) : Z := ((g - GAS_TRANSFER) * p) / WEI.
 
 (** ---------------------------------------------------------------- state *)
 Record st := {
@@ -100,7 +114,7 @@ Definition leaf_run (w : world) (s : st) (l : leaf) : option st :=
       (* the msg server recovers the sender from the signature itself; the `From` field plays no role *)
       if gas <? GAS_TRANSFER then None                     (* intrinsic gas too low: the message fails *)
       else if bal_of s from <? value then None
-      else let refund := (gas - GAS_TRANSFER) * price in
+      else let refund := refund_of gas price in
            if feecol s <? refund then None
            else Some (add_ran (add_fee (add_bal (add_bal (set_seq s from (S nonce)) from (refund - value)) (w_sink w) value) (- refund)) l)
   | Send from =>
@@ -130,6 +144,7 @@ Record cfg := {
   e_sig : bool;             (* EthSigVerification *)
   e_acc : bool;             (* VerifyEthAcc: balance covers cost *)
   e_gas : bool;             (* EthGasConsume: gas × price deducted up front *)
+  fee_exact : bool;         (* keeper.VerifyFee: the deducted amount is WeiToNative(price × gasLimit) *)
   e_seq : bool;             (* EthIncrementSenderSequence: nonce = sequence, then sequence + 1 *)
   (* wasm message handler *)
   wasm_signer : bool;       (* signer of a dispatched message must be the contract *)
@@ -206,7 +221,8 @@ Definition eth_parts (t : msg) : option (addr * nat * Z * Z * Z) :=
   match t with Leaf (EthTx a n g p v) => Some (a, n, g, p, v) | _ => None end.
 
 Definition evm_admit_one (c : cfg) (s : st) (a : addr) (n : nat) (g p : Z) : option st :=
-  match (if e_gas c then if bal_of s a <? g * p then None else Some (add_fee (add_bal s a (- (g * p))) (g * p))
+  match (if e_gas c then let fee := prepay (fee_exact c) g p in
+                         if bal_of s a <? fee then None else Some (add_fee (add_bal s a (- fee)) fee)
          else Some s) with
   | None => None
   | Some s1 => if e_seq c then if Nat.eqb n (seq_of s1 a) then Some (set_seq s1 a (S n)) else None
@@ -230,7 +246,7 @@ Definition evm_ante (c : cfg) (w : world) (s : st) (x : tx) : option st :=
                         && match t_key x with KNone => true | _ => false end
          else true)
      && (if e_acc c then forallb (fun m => match eth_parts m with
-                                          | Some (a, _, g, p, v) => g * p + v <=? bal_of s a
+                                          | Some (a, _, g, p, v) => (g * p) / WEI + v <=? bal_of s a
                                           | None => true end) (t_msgs x) else true)
   then evm_admit c (t_msgs x) s   (* every later decorator also rejects a message that is not a MsgEthereumTx *)
   else None.
@@ -261,7 +277,7 @@ Definition guard_active (chain : list string) (name : string) (g : guard) (needs
   mem name chain && g_found g && g_rejects g && forallb (fun t => mem t (g_tests g)) needs.
 
 Definition cfg_of_facts (nonevm evm : list string) (x : ext_facts) (gp ga : guard) (wh : wasm_facts)
-           (sgc : string) (registered_ext : list string) (eth_signers_recovered : bool) : cfg :=
+           (sgc : string) (registered_ext : list string) (eth_signers_recovered : bool) (fee_of_total : bool) : cfg :=
   {| nonevm_known := match route_of x NoExt with RouteNonEVM => true | _ => false end;
      evm_route := route_of x EvmExt;
      other_route := route_of x OtherExt;
@@ -281,6 +297,7 @@ Definition cfg_of_facts (nonevm evm : list string) (x : ext_facts) (gp ga : guar
      e_sig := mem N_ETH_SIG evm;
      e_acc := mem N_ETH_VERIFY_ACC evm;
      e_gas := mem N_ETH_GAS evm;
+     fee_exact := fee_of_total;
      e_seq := mem N_ETH_INCR_SEQ evm;
      wasm_signer := w_signer_is_contract wh;
      wasm_no_eth := w_refuses_eth wh |}.
@@ -289,7 +306,7 @@ Definition cfg_of_facts (nonevm evm : list string) (x : ext_facts) (gp ga : guar
 Definition cfg_current : cfg :=
   {| nonevm_known := true; evm_route := RouteEVM; other_route := RouteReject; other_decodable := false;
      g_prevent := true; g_authz := true; g_authz_exec := true; g_authz_rec := false; vb_on := true; sig_on := true; sig_accepts_eth := false; signer_recovered := true;
-     fee_on := true; seq_on := true; e_vb := true; e_sig := true; e_acc := true; e_gas := true; e_seq := true;
+     fee_on := true; seq_on := true; e_vb := true; e_sig := true; e_acc := true; e_gas := true; fee_exact := true; e_seq := true;
      wasm_signer := true; wasm_no_eth := true |}.
 
 Definition st_init (accts : list addr) (bal : Z) : st :=
